@@ -52,9 +52,18 @@ def run(tier):
     n = 3 if tier == "quick" else 4
     timeout = 150 if tier == "quick" else 1500
     excl = GC.known_fg_classes(ck, "C12")
-    from gsv import fgsym
+    from gsv import fgsym, groupsym
+    # primary engine: rulesym + z3 on the real functions
+    groupsym.run_all(ck, n)
     fgsym.run_obligations(ck, "C12", n, excl, with_orders=True, with_relabel=False, sep_na=None, timeout=300)
-    res = GC.run_conditions(ck, "C12", n, list(CONDS), timeout, excl, TWINS)
+    if tier == "thorough":
+        # the property's "up to five persons" for the functions where it is affordable (all 120 row orders)
+        groupsym.run_all(ck, 5, which=("eg", "sn", "bg", "wthh"))
+    # second, independent engine: CrossHair on the same functions at N=3
+    conds = [c for c in CONDS if tier == "thorough" or c != "check_bg"]
+    n_xh = 3
+    res = GC.run_conditions(ck, "C12", n_xh, conds, 150 if tier == "quick" else 400, excl, TWINS)
+    n_main, n = n, n_xh
     for cond, (verdict, cex, secs, tail) in sorted(res.items()):
         ck.obligations += 1
         ck.nontrivial.add(cond)
@@ -75,7 +84,8 @@ def run(tier):
         else:
             ck.inconclusive.append(f"{cond} (N={n}): {verdict} within {timeout}s")
     xh.cleanup("C12")
-    ck.bounds = {"persons": n, "row_orders": "all N! permutations", "labels": "canonical 0..N-1 (relabelling: C02)",
+    n = n_main
+    ck.bounds = {"persons": n, "persons_thorough_eg_sn_bg_wthh": 5, "second_engine": "CrossHair at N=3", "row_orders": "all N! permutations", "labels": "canonical 0..N-1 (relabelling: C02)",
                  "per_condition_timeout_s": timeout, "households": "hh_id in {0,1}", "ages": "one representative per generation: 2, 20, 40, 60",
                  "excluded_known_classes": excl, "outside": "N=5 structures of the property text; symbolic labels together with permutations"}
     ck.assumptions = ["valid pointer structures: symmetric partner pointers within one household, parents one generation older, a parent is not one's partner, elternteil_1 != elternteil_2",
